@@ -40,6 +40,7 @@ FEATURE_DEFAULTS = {
     "no_substreams": False,     # one stream per folder, CRCs at folder level, SubStreamsInfo record left out altogether
     "kind_attr_conflict": False,  # attribute words that say the opposite of the stream flags (dir without 0x10, empty file with 0x10)
     "startpos": False,          # kStartPos (0x18) file property, partially defined
+    "dir_slash": False,         # directories stored as 'name/' (libarchive, Java writers)
 }
 
 REF_CHAINS = [
@@ -93,6 +94,7 @@ def gen_case(rng: random.Random, max_len=20000, force=None):
     f["no_substreams"] = maybe(0.12)
     f["kind_attr_conflict"] = maybe(0.12)
     f["startpos"] = maybe(0.08)
+    f["dir_slash"] = maybe(0.15)
     if rng.random() < 0.1:
         f["pack_crc"] = "partial"
     if force:
@@ -205,7 +207,7 @@ def realise(case):
     members = []
     n = len(case["members"])
     for i, m in enumerate(case["members"]):
-        d = {"name": m["name"], "kind": m["kind"]}
+        d = {"name": m["name"] + ("/" if (m["kind"] == "dir" and f.get("dir_slash")) else ""), "kind": m["kind"]}
         if m["kind"] == "file":
             d["data"] = G.materialise(m["content"])
         elif m["kind"] == "symlink":
